@@ -134,6 +134,8 @@ def decOp : Sexp → Option Impl.Op
   | .list [.atom "apply", .atom q, .atom doc] => do pure (.apply (← q.toNat?) (← decJsonAll doc))
   | .list [.atom "envfind", .atom e, .atom q, .atom doc] => do
       pure (.envFind (← e.toNat?) (← decStr q) (← decJsonAll doc))
+  | .list [.atom "configure", .atom e, .atom md, .atom lo, .atom hi] => do
+      pure (.configure (← e.toNat?) (← md.toInt?) (← lo.toInt?) (← hi.toInt?))
   | _ => none
 
 def encOut : Impl.Out → String
